@@ -66,6 +66,13 @@ static std::string do_op(Token token, const top& o) {
                 out << " v=" << tohex(g.first, g.second);
             else out << " w=" << hx(reinterpret_cast<std::uintptr_t>(g.first));
         }
+    } else if (o.kind == "create") {
+        out << create_storage(unhex(a[0]));
+    } else if (o.kind == "dropst") {
+        out << delete_storage(unhex(a[0]));
+    } else if (o.kind == "find") {
+        tree_instance* ti{};
+        out << find_storage(unhex(a[0]), &ti);
     } else if (o.kind == "rem") {
         std::string st = unhex(a[0]), k = unhex(a[1]);
         out << remove(token, st, k);
